@@ -80,6 +80,13 @@ ImplGammaLimit ==
         r.K[p][pp][a][b] = FracOfK(ev.at[p], ev.at[pp], a, b)
 (* independent of the length of n *)
 ImplHomogeneous == pc = "gamma" => \A r \in Main(ob.runs) : r.Klam = r.K
+(* ... for the whole ladder of lengths of n, from 1e2 down to 3 x Q_DIRECTION_TOLERANCE (Cartesian, 1/Angstrom): *)
+(* every rung gives the rational K(n) of the specification                                                         *)
+ImplHomogeneousLadder ==
+  pc = "gamma" =>
+     \A l \in ob.ladder :
+        /\ l.exact
+        /\ \A p, pp \in 1..NP : \A a, b \in I3 : l.K[p][pp][a][b] = FracOfK(ev.at[p], ev.at[pp], a, b)
 (* the correction is real symmetric *)
 ImplSymmetric ==
   pc = "gamma" =>
